@@ -76,6 +76,8 @@ def core_cases(L):
                         c = base_case(n, nE, check, t, o, {1: list(seq)})
                         # implementation-side variations the model cannot see (deterministic in i)
                         c['write'] = 'rebind' if i % 3 == 0 else 'inplace'
+                        c['prov'] = sc.PROVENANCES[i % len(sc.PROVENANCES)]
+                        c['names'] = sc.NAME_STYLES[(i // 5) % len(sc.NAME_STYLES)]
                         c['span_kind'] = sc.SPAN_KINDS[i % len(sc.SPAN_KINDS)]
                         for a in c['script'][1]:
                             if a['k'] == 'warn':
@@ -213,7 +215,7 @@ def oracle(case, m, tag, rep, calls=None, final=None):
     if final is None:
         st = ''.join(str(x) for x in m.status)
         it = [int(x) for x in m.iterations]
-        vals = [[bits(x) for x in m.__dict__[f'_E{i}']] for i in range(nE)]
+        vals = [[bits(x) for x in m.__dict__['_' + nm]] for nm in sc.names_of(case)]
         calls = list(m.calls)
     else:
         st, it, vals = final
